@@ -124,7 +124,7 @@ def anchors():
 
 
 def suite(repo):
-	rc, out = sh('PYTHONPATH=%s PYTHONHASHSEED=0 /venv/bin/python -m pytest -q -p no:cacheprovider --timeout=60 2>&1 | grep -E "^(FAILED|ERROR)| passed| failed|error"' % (repo,), cwd=repo, timeout=1500)
+	rc, out = sh('PYTHONPATH=%s PYTHONHASHSEED=0 timeout -k 5 400 /venv/bin/python -m pytest -q -p no:cacheprovider --timeout=60 2>&1 | grep -E "^(FAILED|ERROR)| passed| failed|error"' % (repo,), cwd=repo, timeout=1500)
 	failed = sorted(set(re.findall(r'^(?:FAILED|ERROR) (\S+)', out, flags=re.M)))
 	summ = [l for l in out.splitlines() if ' passed' in l or ' failed' in l or 'error' in l][-1:] or ['?']
 	return failed, re.sub(r' in [\d.]+s.*', '', summ[0])
